@@ -281,6 +281,42 @@ def classify_closure(closure, factory, prog, factories):
     return rets, t.singular, t.unknown, getattr(t, "singular_inside", [])
 
 
+def _combines_unbounded(cl, fi, factories):
+    """An Add/Sub whose two operands are both whole arrays derived from singular data, evaluated before sanitising."""
+    fassigns = local_assignments(fi.node)
+    env = local_assignments(cl)
+    # arrays filled from compiled element functions / singular primitives
+    singular_names = set()
+    for n in walk_local(cl):
+        if isinstance(n, ast.Assign):
+            for tg in n.targets:
+                if isinstance(tg, ast.Subscript) and isinstance(tg.value, ast.Name):
+                    t = Term(cl, fassigns, set(), set())
+                    t.scan(n.value)
+                    if t.singular:
+                        singular_names.add(tg.value.id)
+                elif isinstance(tg, ast.Name):
+                    t = Term(cl, fassigns, set(), set())
+                    t.scan(n.value)
+                    if t.singular:
+                        singular_names.add(tg.id)
+
+    def derived(e):
+        return any(isinstance(x, ast.Name) and x.id in singular_names for x in ast.walk(e))
+
+    for n in walk_local(cl):
+        if isinstance(n, ast.BinOp) and isinstance(n.op, (ast.Add, ast.Sub)) and derived(n.left) and derived(n.right):
+            # inside the argument of the sanitiser? then it happens before sanitising
+            p_ = getattr(n, "_parent", None)
+            sanitised_before = False
+            # operands that are themselves sanitiser calls are fine
+            if all(isinstance(o, ast.Call) and dotted(o.func) == "_sanitize_derivatives" for o in (n.left, n.right)):
+                sanitised_before = True
+            if not sanitised_before:
+                return n
+    return None
+
+
 def _sanitised(rv, env, depth=0) -> bool:
     if isinstance(rv, ast.Call):
         f = dotted(rv.func)
@@ -336,6 +372,12 @@ def check(prog, rep):
                    f"term contains {', '.join(sorted(set(singular))[:3])} but a return path hands the array to the solver without _sanitize_derivatives: NaN/inf reaches SciPy at the singular point",
                    loc=f"{fi.module.rel}:{cl.lineno}", detail="singular=>sanitised",
                    extra={"sanitised": all_san, "singular": sorted(set(singular + inside))})
+            # entries must be sanitised before they are combined with each other: inf - inf (or inf + -inf) is NaN,
+            # which the sanitiser then maps to 0 instead of +-L
+            if not isinstance(cl, ast.Lambda):
+                comb = _combines_unbounded(cl, fi, factories)
+                if comb is not None:
+                    rep.ob("R19.1", construct, False, f"`{src(comb)[:70]}` adds/subtracts arrays that may hold unbounded entries BEFORE _sanitize_derivatives is applied: inf - inf = NaN, which is then reported as 0 instead of +-1e16", loc=f"{fi.module.rel}:{comb.lineno}", detail="combine-before-sanitise")
             arm = _arm_key(cl, fi)
             by_arm.setdefault(arm, []).append((name, all_san, bool(singular or inside), cl))
         for arm, lst in by_arm.items():
